@@ -90,16 +90,72 @@ fn hval<R: dashu_float::round::Round, const B: Word>(v: &FBig<R, B>) -> String {
     format!("{} {:x}", hrepr(v.repr()), v.precision())
 }
 
-macro_rules! with_newbase {
-    ($nb:expr, |$NB:ident| $body:expr) => {
-        match $nb {
-            "2" => { const $NB: Word = 2; $body }
-            "3" => { const $NB: Word = 3; $body }
-            "a" => { const $NB: Word = 10; $body }
-            "10" => { const $NB: Word = 16; $body }
-            other => panic!("unsupported target base {}", other),
+/// Base pairs of the base-change operations (source => targets).  Every class of pair occurs for every
+/// family of source bases: same base; NewB = B^n (B in {2,3,4,5,6,10}, n = 2..5); B = NewB^n; a common root
+/// without one being a power of the other (4<->8, 8<->16, 8<->32, 9<->27, 4<->32, 16<->32); one base a
+/// multiple of the other; coprime bases.  (hlib::with_float knows the sources 2 3 5 7 8 10 16 36 only.)
+macro_rules! dispatch_pairs {
+    ($R:ty, $b:expr, $nb:expr, $op:expr, $a:expr; $( $B:literal => [$($NB:literal),*] );* $(;)?) => {
+        match $b {
+            $( $B => match $nb {
+                $( $NB => conv2::<$R, $B, $NB>($op, $a), )*
+                other => panic!("unsupported target base {} for source {}", other, $B),
+            }, )*
+            other => panic!("unsupported source base {}", other),
         }
     };
+}
+
+macro_rules! dispatch_src {
+    ($R:ty, $b:expr, $op:expr, $a:expr; $($B:literal),*) => {
+        match $b {
+            $( $B => conv_fixed::<$R, $B>($op, $a), )*
+            other => panic!("unsupported source base {}", other),
+        }
+    };
+}
+
+fn conv2<R: dashu_float::round::Round, const B: Word, const NB: Word>(op: &str, a: &[&str]) -> String {
+    let x = FBig::<R, B>::from_repr(repr_of::<B>(a[3], a[4]), Context::<R>::new(usz(a[5])));
+    if op == "with_base" {
+        format!("ok {}", hrounded(&x.with_base::<NB>()))
+    } else {
+        format!("ok {}", hrounded(&x.with_base_and_precision::<NB>(usz(a[6]))))
+    }
+}
+
+fn conv_fixed<R: dashu_float::round::Round, const B: Word>(op: &str, a: &[&str]) -> String {
+    let x = FBig::<R, B>::from_repr(repr_of::<B>(a[2], a[3]), Context::<R>::new(usz(a[4])));
+    if op == "to_decimal" {
+        format!("ok {}", hrounded(&x.to_decimal()))
+    } else {
+        format!("ok {}", hrounded(&x.to_binary()))
+    }
+}
+
+fn conv<R: dashu_float::round::Round>(op: &str, a: &[&str]) -> String {
+    let b = u64::from_str_radix(a[0], 16).unwrap();
+    if op == "to_decimal" || op == "to_binary" {
+        return dispatch_src!(R, b, op, a; 2, 3, 4, 5, 6, 7, 8, 9, 10, 16, 25, 27, 32, 36, 100);
+    }
+    let nb = u64::from_str_radix(a[2], 16).unwrap();
+    dispatch_pairs!(R, b, nb, op, a;
+        2 => [2, 3, 4, 5, 6, 8, 10, 16, 32];
+        3 => [2, 3, 9, 10, 16, 27];
+        4 => [2, 3, 4, 8, 10, 16, 32];
+        5 => [2, 3, 5, 10, 16, 25];
+        6 => [2, 3, 6, 10, 36];
+        7 => [2, 3, 10, 16];
+        8 => [2, 3, 4, 8, 10, 16, 32];
+        9 => [2, 3, 9, 10, 27];
+        10 => [2, 3, 5, 10, 16, 100];
+        16 => [2, 3, 4, 8, 10, 16, 32];
+        25 => [2, 5, 10, 25];
+        27 => [2, 3, 9, 10, 27];
+        32 => [2, 4, 8, 10, 16, 32];
+        36 => [2, 3, 6, 10, 16, 36];
+        100 => [2, 3, 10, 100];
+    )
 }
 
 fn run(op: &str, a: &[&str]) -> String {
@@ -128,6 +184,17 @@ fn run(op: &str, a: &[&str]) -> String {
                 }
             });
         }
+        "with_base" | "with_base_prec" | "to_decimal" | "to_binary" => {
+            return match a[1] {
+                "Zero" => conv::<mode::Zero>(op, a),
+                "Away" => conv::<mode::Away>(op, a),
+                "Up" => conv::<mode::Up>(op, a),
+                "Down" => conv::<mode::Down>(op, a),
+                "HalfEven" => conv::<mode::HalfEven>(op, a),
+                "HalfAway" => conv::<mode::HalfAway>(op, a),
+                other => panic!("unknown mode {}", other),
+            };
+        }
         _ => {}
     }
     with_float!(a[0], a[1], |R, B| {
@@ -155,16 +222,6 @@ fn run(op: &str, a: &[&str]) -> String {
                     Err(e) => perr(e),
                 }
             }
-            "with_base" | "with_base_prec" => {
-                let x = FBig::<R, B>::from_repr(repr_of::<B>(a[3], a[4]), Context::<R>::new(usz(a[5])));
-                with_newbase!(a[2], |NB| {
-                    if op == "with_base" {
-                        format!("ok {}", hrounded(&x.with_base::<NB>()))
-                    } else {
-                        format!("ok {}", hrounded(&x.with_base_and_precision::<NB>(usz(a[6]))))
-                    }
-                })
-            }
             _ => {
                 let repr = repr_of::<B>(a[2], a[3]);
                 let x = FBig::<R, B>::from_repr(repr.clone(), Context::<R>::new(usz(a[4])));
@@ -187,8 +244,6 @@ fn run(op: &str, a: &[&str]) -> String {
                         }
                     }
                     "with_precision" => format!("ok {}", hrounded(&x.with_precision(usz(a[5])))),
-                    "to_decimal" => format!("ok {}", hrounded(&x.to_decimal())),
-                    "to_binary" => format!("ok {}", hrounded(&x.to_binary())),
                     _ => format!("unknown-op {}", op),
                 }
             }
